@@ -203,7 +203,11 @@ def match(real, exp, g, used, log):
     if k == "set":
         if not isinstance(real, IPersistentSet):
             return False
-        return _match_unordered(list(real), _dedup(exp[1]), g, used, log)
+        # a list emptied by splices may be nil (see "list" above) and then coincides with a nil member
+        alts = [exp[1]]
+        if any(e[0] == "list" and not e[1] and not e[2] for e in exp[1]):
+            alts.append([("const", None) if (e[0] == "list" and not e[1] and not e[2]) else e for e in exp[1]])
+        return any(_match_unordered(list(real), _dedup(a), g, used, log) for a in alts)
     if k == "map":
         if not isinstance(real, IPersistentMap):
             return False
@@ -312,6 +316,8 @@ def evaluate(exp, lookup):
             raise NotEvaluable("duplicate set members")
         return lset.set(vals)
     if k == "map":
+        if len({tuple(sorted(repr((_ekey(f[i]), _ekey(f[i + 1]))) for i in range(0, len(f), 2))) for f in exp[1]}) > 1:
+            raise NotEvaluable("entry order matters")
         flat = exp[1][0]
         ks = [evaluate(flat[i], lookup) for i in range(0, len(flat), 2)]
         vs = [evaluate(flat[i], lookup) for i in range(1, len(flat), 2)]
